@@ -2475,6 +2475,15 @@ def _reduce_lambda_to_loop(stmts: List[ast.stmt], counter: List[int]) -> List[as
         if isinstance(val, ast.Call) and (dotted(val.func) or "").split(".")[-1] == "reduce" and len(val.args) == 3 and not val.keywords and isinstance(val.args[0], ast.Lambda) and len(val.args[0].args.args) == 2 and not val.args[0].args.defaults:
             lam = val.args[0]
             a, e = lam.args.args[0].arg, lam.args.args[1].arg
+            if isinstance(s, ast.Assign) and len(s.targets) == 1 and isinstance(s.targets[0], ast.Name) and isinstance(val.args[2], ast.Name) and val.args[2].id == s.targets[0].id and e != s.targets[0].id and not any(isinstance(n, ast.Name) and n.id == s.targets[0].id for n in ast.walk(lam.body)):
+                # x = reduce(lambda a, e: BODY, xs, x)  ==  for e in xs: x = BODY[a := x]   (the accumulator is x itself)
+                tname = s.targets[0].id
+                body = _Subst({a: ast.Name(id=tname, ctx=ast.Load())}).visit(copy.deepcopy(lam.body))
+                loop = ast.For(target=ast.Name(id=e, ctx=ast.Store()), iter=val.args[1], body=[ast.Assign(targets=[ast.Name(id=tname, ctx=ast.Store())], value=body)], orelse=[])
+                ast.copy_location(loop, s)
+                ast.fix_missing_locations(loop)
+                out.append(loop)
+                continue
             counter[0] += 1
             acc = f"_red{counter[0]}"
             body = _Subst({a: ast.Name(id=acc, ctx=ast.Load())}).visit(copy.deepcopy(lam.body))
